@@ -340,6 +340,15 @@ class ClassTranslator:
                     out.append(mk("io"))
                 else:
                     out.append(mk("pure" if (simple_targets and pure_expr(val)) else "io"))
+            elif isinstance(s, ast.Try) and s.finalbody and not s.handlers and not s.orelse:
+                # try: A finally: B   ≡   try: A except <everything>: B; raise   followed by B on the normal path
+                # (the statements of B appear twice in the program, with the same ids)
+                if any(isinstance(x, (ast.Return, ast.Break, ast.Continue)) for n in s.body + s.finalbody for x in ast.walk(n)):
+                    raise Untranslatable(f"return/break inside try/finally: {self._where(owner, s)}")
+                body = self._stmts(s.body, owner, fname, ids, fm)
+                fin = self._stmts(s.finalbody, owner, fname, ids, fm, in_handler=True)
+                out.append(Try(sid, body, list(KINDS), fin, ("reraise",)))
+                out += self._stmts(s.finalbody, owner, fname, ids, fm)
             elif isinstance(s, ast.Try):
                 out.append(self._try(s, owner, fname, ids, fm, sid))
             elif isinstance(s, ast.If):
@@ -597,9 +606,12 @@ class MState:
 
 
 def _fault(plan, s: MState):
-    if plan is not None and s.cnt == plan[0]:
-        return plan[1]
-    return None
+    """plan: None | (k, kind) | {k: kind, …}  (mirror of `noFault`, `single k κ`, an arbitrary plan)"""
+    if plan is None:
+        return None
+    if isinstance(plan, dict):
+        return plan.get(s.cnt)
+    return plan[1] if s.cnt == plan[0] else None
 
 
 def step_atom(plan, a: Atom, s: MState):
@@ -634,9 +646,11 @@ def step_atom(plan, a: Atom, s: MState):
     if k == "tClose":
         if a.t not in s.links:
             return "invalidOp"
+        f = _fault(plan, s)
+        s.cnt += 1
         s.links = [x for x in s.links if x != a.t]
         s.iolog.append(a.id)
-        return "ok"
+        return f or "ok"
     if k == "io":
         f = _fault(plan, s)
         if s.links:
@@ -821,24 +835,28 @@ def m_closeGuarded(p):
 # -- mirror of the abstract run `chk` / safeOpen / safeClose of Props/C19.lean (prediction only) -----------------
 
 def _abs_atom(a, sig):
+    """(state after normal completion, state in which it raises or None); None = raises for sure"""
     flag, links = sig
     k = a.kind
     if k == "pure":
-        return (sig, False)
+        return (sig, None)
     if k == "io":
-        return (sig, True)
+        return (sig, sig)
     if k == "checkClosed":
-        return None if flag else (sig, False)
+        return None if flag else (sig, None)
     if k == "checkOpen":
-        return (sig, False) if flag else None
+        return (sig, None) if flag else None
     if k == "superOpen":
-        return None if flag else ((True, links), False)
+        return None if flag else ((True, links), None)
     if k == "superClose":
-        return ((False, links), False) if flag else None
+        return ((False, links), None) if flag else None
     if k == "tOpen":
-        return None if a.t in links else ((flag, (a.t,) + links), True)
+        return None if a.t in links else ((flag, (a.t,) + links), sig)
     if k == "tClose":
-        return ((flag, tuple(x for x in links if x != a.t)), False) if a.t in links else None
+        if a.t not in links:
+            return None
+        after = (flag, tuple(x for x in links if x != a.t))
+        return (after, after)
     raise ValueError(k)
 
 
@@ -848,8 +866,8 @@ def m_chk(K, sig, prog):
             r = _abs_atom(st, sig)
             if r is None:
                 return None
-            sig2, can_raise = r
-            if can_raise and not K(sig):
+            sig2, rho = r
+            if rho is not None and not K(rho):
                 return None
             sig = sig2
         else:
@@ -858,7 +876,7 @@ def m_chk(K, sig, prog):
             def Kb(tau, st=st, all_caught=all_caught):
                 if not (all_caught or K(tau)):
                     return False
-                t2 = m_chk(lambda _x: False, tau, st.handler)
+                t2 = m_chk(K, tau, st.handler)
                 return t2 is not None and st.exit[0] != "swallow" and K(t2)
             sig = m_chk(Kb, sig, st.body)
             if sig is None:
@@ -875,12 +893,30 @@ def m_safeOpen(n, p):
     return s is not None and m_good(n)(s)
 
 
-def m_safeClose(n, po, pc):
+def m_safeClose(n, po, pc, faults: bool = True):
     s = m_chk(m_good(n), (False, ()), po)
     if s is None or not s[0] or not m_good(n)(s):
         return False
-    t = m_chk(lambda _x: True, s, pc)
+    t = m_chk(m_good(n) if faults else (lambda _x: True), s, pc)
     return t is not None and not t[0] and not t[1]
+
+
+def close_bad_plans(p: "Program") -> list:
+    """single-fault plans of close() (after a fault-free open()) that leave the instrument inconsistent"""
+    n = len(p.links)
+    o = MState()
+    if exec_prog(None, p.open, o) != "ok":
+        return []
+    c = MState(o.flag, list(o.links))
+    exec_prog(None, p.close, c)
+    out = []
+    for k in range(c.cnt):
+        for kd in KINDS:
+            c = MState(o.flag, list(o.links))
+            exec_prog((k, kd), p.close, c)
+            if not consistent(n, c):
+                out.append((k, kd))
+    return out
 
 
 # ---------------------------------------------------------------------------
@@ -891,7 +927,33 @@ HEADER = "-- GENERATED by harness/tr_openprogs.py from the `open`/`close` source
 
 
 def plan_lean(pl) -> str:
-    return "none" if pl is None else f"(some ({pl[0]}, .{pl[1]}))"
+    return "noFault" if pl is None else f"(single {pl[0]} .{pl[1]})"
+
+
+def base_program_lean() -> str:
+    """The base class itself (and every driver that inherits open/close unchanged, e.g. the ADwin and dummy drivers):
+    no link, `open` = superOpen, `close` = superClose — emitted only after checking that QMI_Instrument.open/close and
+    the two state checks still have exactly that shape."""
+    from qmi.core.instrument import QMI_Instrument
+
+    class _Probe:
+        pass
+    tr = ClassTranslator.__new__(ClassTranslator)
+    tr.QMI_Instrument = QMI_Instrument
+    tr._check_base_unpatched("open")
+    tr._check_base_unpatched("close")
+    return ("/-- qmi.core.instrument.QMI_Instrument.open / close (pattern-checked against the source): the flag protocol alone -/\n"
+            "def gen_QMI_Instrument : Driver :=\n  { name := \"QMI_Instrument\", nlinks := 0,\n"
+            "    openP := [.atom 1 .superOpen],\n    closeP := [.atom 1 .superClose] }\n")
+
+
+_GUARD_TABLES: dict = {}
+
+
+def guard_table(cls) -> dict:
+    if cls not in _GUARD_TABLES:
+        _GUARD_TABLES[cls] = GuardAnalysis(cls).table()
+    return _GUARD_TABLES[cls]
 
 
 def emit_programs(progs: list) -> str:
@@ -904,7 +966,17 @@ def emit_programs(progs: list) -> str:
                 out.append(f"--   {which} #{a.id:<5} {a.kind + ('' if a.t is None else ' ' + str(a.t)):<12} {a.src}")
         out.append(f"def gen_{p.name} : Driver :=\n  {{ name := \"{p.name}\", nlinks := {len(p.links)},\n"
                    f"    openP := {lean_list(p.open)},\n    closeP := {lean_list(p.close)} }}\n")
-    out.append("def allDrivers : List Driver := [" + ", ".join(f"gen_{p.name}" for p in progs) + "]\n")
+    out.append(base_program_lean())
+    seen_cls = set()
+    for p in progs:
+        if p.cls.__name__ in seen_cls:
+            continue
+        seen_cls.add(p.cls.__name__)
+        tab = guard_table(p.cls)
+        ent = ", ".join(f'("{m}", .{ {"GUARD": "guard", "NOIO": "noio", "UNGUARDED": "bare"}[v] })' for m, v in sorted(tab.items()))
+        out.append(f"/-- static guard analysis of the RPC methods of {p.cls.__name__} -/\n"
+                   f"def rpcGuards_{p.cls.__name__} : List (String × Guard) := [{ent}]\n")
+    out.append("def allDrivers : List Driver := [" + ", ".join(["gen_QMI_Instrument"] + [f"gen_{p.name}" for p in progs]) + "]\n")
     out.append("end QmiModel.Gen.OpenProgs\n")
     return "\n".join(out)
 
@@ -919,9 +991,16 @@ def emit_obligations(progs: list, untranslatable: list) -> tuple[str, dict]:
         bad = bad_plans(p)
         verdicts[p.name] = {"bad_plans": bad, "hist": mirror_hist_ok(p), "recover": mirror_recover_ok(p)}
         g = f"gen_{p.name}"
-        if not bad:
-            out.append(f"theorem ok_{p.name} : ∀ plan, Consistent {g}.nlinks (runOpen {g} plan).1 ∧ "
-                       f"(runOpen {g} plan).2 ≠ .outOfFuel :=\n  all_plans_of_table {g} (by decide +kernel)")
+        n = len(p.links)
+        safe = m_safeOpen(n, p.open)
+        verdicts[p.name]["safe_open"] = safe
+        if not bad and safe:
+            out.append(f"/-- every fault plan: any number of faults, any kinds, at any fault points of open() -/\n"
+                       f"theorem ok_{p.name} : ∀ P : Plan, GoodRun {g} P :=\n  all_plans_of_safe {g} (by decide +kernel)")
+        elif not bad:
+            out.append(f"/-- every plan of the property statement (one fault); the general discipline safeOpen does not hold -/\n"
+                       f"theorem ok_single_{p.name} : GoodRun {g} noFault ∧ ∀ k κ, GoodRun {g} (single k κ) :=\n"
+                       f"  all_plans_of_table {g} (by decide +kernel)")
         else:
             w = bad[0]
             lst = "[" + ", ".join(f"({k}, .{kd})" for k, kd in [b for b in bad if b is not None]) + "]"
@@ -929,9 +1008,18 @@ def emit_obligations(progs: list, untranslatable: list) -> tuple[str, dict]:
                        f"theorem bad_{p.name} : ¬ Consistent {g}.nlinks (runOpen {g} {plan_lean(w)}).1 :=\n"
                        f"  not_consistent_of_table {g} {plan_lean(w)} (by decide +kernel)")
             if None not in bad:
-                out.append(f"/-- … and these are *all* failing plans of this class -/\n"
-                           f"theorem exact_{p.name} : ∀ k κ, Consistent {g}.nlinks (runOpen {g} (some (k, κ))).1 ∨ (k, κ) ∈ {lst} :=\n"
+                out.append(f"/-- … and these are *all* failing single-fault plans of this class -/\n"
+                           f"theorem exact_{p.name} : ∀ k κ, Consistent {g}.nlinks (runOpen {g} (single k κ)).1 ∨ (k, κ) ∈ {lst} :=\n"
                            f"  all_plans_except_of_table {g} {lst} (by decide +kernel)")
+        # close() under faults
+        cbad = close_bad_plans(p)
+        verdicts[p.name]["close_bad_plans"] = cbad
+        if cbad:
+            k, kd = cbad[0]
+            out.append(f"/-- a fault inside close() (after a fault-free open()) that leaves the instrument inconsistent -/\n"
+                       f"theorem closebad_{p.name} : ¬ Consistent {g}.nlinks "
+                       f"(runClose {g} (single {k} .{kd})).1 :=\n"
+                       f"  not_consistent_of_b _ _ (by decide +kernel)")
         if verdicts[p.name]["hist"]:
             out.append(f"theorem hist_{p.name} : histOK {g} = true := by decide +kernel")
         else:
@@ -945,6 +1033,8 @@ def emit_obligations(progs: list, untranslatable: list) -> tuple[str, dict]:
             shape.append(f"safeOpen {g}.nlinks {g}.openP = true")
         if m_safeClose(len(p.links), p.open, p.close):
             shape.append(f"safeClose {g}.nlinks {g}.openP {g}.closeP = true")
+        if m_safeClose(len(p.links), p.open, p.close, faults=False):
+            shape.append(f"safeCloseNoFault {g}.nlinks {g}.openP {g}.closeP = true")
         if m_wfOpen(p.open):
             shape.append(f"wfOpen {g}.openP = true")
         if m_wfClose(p.close):
@@ -959,6 +1049,27 @@ def emit_obligations(progs: list, untranslatable: list) -> tuple[str, dict]:
                        f"close_after_open, double_open_close_refused) -/\n"
                        f"theorem shape_{p.name} : {' ∧ '.join(shape)} := by decide")
         out.append("")
+    out.append("/-- the base class alone (no link): the flag protocol holds under every plan, and the histories behave -/\n"
+               "theorem ok_QMI_Instrument : ∀ P : Plan, GoodRun gen_QMI_Instrument P :=\n"
+               "  all_plans_of_safe gen_QMI_Instrument (by decide +kernel)\n"
+               "theorem hist_QMI_Instrument : histOK gen_QMI_Instrument = true := by decide +kernel\n")
+    seen_cls = set()
+    for p in progs:
+        c = p.cls.__name__
+        if c in seen_cls:
+            continue
+        seen_cls.add(c)
+        bare = sorted(m for m, v in guard_table(p.cls).items() if v == "UNGUARDED")
+        verdicts[p.name]["bare_rpc_methods"] = bare
+        if not bare:
+            out.append(f"/-- every RPC method of {c} checks the instrument's open flag before it can reach a link object -/\n"
+                       f"theorem rpcguard_{c} : bareMethods rpcGuards_{c} = [] := by rfl")
+        else:
+            lst = "[" + ", ".join(f'"{m}"' for m in bare) + "]"
+            out.append(f"/-- the RPC methods of {c} that reach a link object without an instrument-level check first: on a closed\n"
+                       f"    instrument they are stopped by the transport's own state check only (still no device I/O: method_closed_no_io) -/\n"
+                       f"theorem rpcbare_{c} : bareMethods rpcGuards_{c} = {lst} := by rfl")
+    out.append("")
     if untranslatable:
         out.append("-- classes the translator refused (no obligation stated; the check reports them as a broken link):")
         for n, why in untranslatable:
@@ -967,10 +1078,50 @@ def emit_obligations(progs: list, untranslatable: list) -> tuple[str, dict]:
     return "\n".join(out), verdicts
 
 
+def check_transport_close_pattern() -> list:
+    """The model's `tClose` fault ("the link counts as released, then the exception propagates") rests on every shipped
+    transport's close() calling the base class (which clears the open flag) before anything that can fail.
+    Returns [(class name, why)] for transports that do not."""
+    import qmi.core.transport as T0
+    for m in ("qmi.core.transport_usbtmc_pyusb", "qmi.core.transport_usbtmc_visa", "qmi.core.transport_gpib_visa"):
+        try:
+            __import__(m)
+        except Exception:
+            pass
+    out, seen = [], []
+
+    def walk(c):
+        for k in c.__subclasses__():
+            if k not in seen:
+                seen.append(k)
+                walk(k)
+    walk(T0.QMI_Transport)
+    for k in seen:
+        if not k.__module__.startswith("qmi.") or "close" not in k.__dict__:
+            continue
+        try:
+            import textwrap
+            fdef = ast.parse(textwrap.dedent(inspect.getsource(k.__dict__["close"]))).body[0]
+        except (OSError, TypeError, SyntaxError) as e:
+            out.append((k.__name__, f"source of close() not available: {e}"))
+            continue
+        first = None
+        for st in D.body_without_docstring(fdef):
+            if isinstance(st, ast.Expr) and isinstance(st.value, ast.Call) and pure_call(st.value):
+                continue
+            first = st
+            break
+        if not (first is not None and isinstance(first, ast.Expr) and _is_super_call(first.value, "close")):
+            out.append((k.__name__, "close() does not call super().close() before anything that can fail: "
+                        + (ast.unparse(first)[:80] if first is not None else "<empty>")))
+    return out
+
+
 def translate_all() -> tuple[list, list, list]:
     """(programs, untranslatable [(name, why)], import_failures)."""
     classes, fails = D.discover_classes()
     progs, bad = [], []
+    bad += [("transport " + n, w) for n, w in check_transport_close_pattern()]
     for cls in classes:
         try:
             vs = D.variants_of(cls)
@@ -985,3 +1136,182 @@ def translate_all() -> tuple[list, list, list]:
             except Exception as e:  # a translator bug is also "source not understood"
                 bad.append((lean_name(cls.__name__, tag), f"translator error {type(e).__name__}: {e}"))
     return progs, bad, fails
+
+
+# ---------------------------------------------------------------------------
+# static guard analysis of the RPC methods ("a closed instrument performs no device I/O")
+# ---------------------------------------------------------------------------
+
+class GuardAnalysis:
+    """For every @rpc_method of a driver class: does it check `_check_is_open()` (itself or through a self-method it
+    calls first) before the first statement that can reach a transport?
+
+      GUARD      the instrument-level check comes first on every path that reaches a link object
+      NOIO       no statement reaches a link object at all
+      UNGUARDED  some path can reach a link object before any instrument-level check: on a closed instrument the call
+                 is stopped only by the transport's own `_check_is_open()` (still no device I/O, but the driver relies on
+                 the second line of defence)
+
+    Conservative towards UNGUARDED; validated on every run against the recorded transport calls of the real method
+    on a closed instrument (a GUARD/NOIO method must not even attempt a transport call)."""
+
+    def __init__(self, cls):
+        self.cls = cls
+        self.tattrs = [a for a, _, _ in D.transport_params(cls)]
+        self.link_objs = set(self.tattrs)
+        self._derive_link_objects()
+        self.memo: dict = {}
+
+    def _derive_link_objects(self):
+        changed = True
+        while changed:
+            changed = False
+            for k in self.cls.__mro__:
+                if not k.__module__.startswith("qmi.instruments."):
+                    continue
+                node = D.class_source_ast(k)
+                if node is None:
+                    continue
+                for fn in node.body:
+                    if not (isinstance(fn, ast.FunctionDef) and fn.name == "__init__"):
+                        continue
+                    for st in ast.walk(fn):
+                        if isinstance(st, (ast.Assign, ast.AnnAssign)) and isinstance(st.value, ast.Call):
+                            tg = st.targets[0] if isinstance(st, ast.Assign) else st.target
+                            if not _is_self_attr(tg) or tg.attr in self.link_objs:
+                                continue
+                            uses = any(_is_self_attr(x) and x.attr in self.link_objs for x in ast.walk(st.value))
+                            if uses:
+                                self.link_objs.add(tg.attr)
+                                changed = True
+
+    def _resolve(self, name, after=None):
+        """(function, owner) of self.<name>, or of super().<name> as seen from class `after`"""
+        mro = list(self.cls.__mro__)
+        if after is not None and after in mro:
+            mro = mro[mro.index(after) + 1:]
+        for k in mro:
+            if name in k.__dict__:
+                v = k.__dict__[name]
+                if isinstance(v, (staticmethod, classmethod)):
+                    v = v.__func__
+                return (v, k) if inspect.isfunction(v) else (None, k)
+        return (None, None)
+
+    def _reaches_directly(self, node) -> bool:
+        for n in ast.walk(node):
+            if isinstance(n, ast.Attribute) and _is_self_attr(n) and n.attr in self.link_objs:
+                return True
+        return False
+
+    def _classify_simple(self, st, stack, owner) -> Optional[str]:
+        """'R' reaches a link object (or an UNGUARDED self-method), 'G' passes a guard first, None neither"""
+        if self._reaches_directly(st):
+            return "R"
+        guard = False
+        for n in ast.walk(st):
+            if not isinstance(n, ast.Call):
+                continue
+            f = n.func
+            m, after = None, None
+            if _is_self_attr(f):
+                m = f.attr
+            elif (isinstance(f, ast.Attribute) and isinstance(f.value, ast.Call) and isinstance(f.value.func, ast.Name)
+                  and f.value.func.id == "super"):
+                m, after = f.attr, owner
+            if m is not None:
+                if m == "_check_is_open" and after is None:
+                    guard = True
+                    continue
+                sm = self.summary(m, stack, after)
+                if sm == "UNGUARDED":
+                    return "R"
+                if sm == "GUARD":
+                    guard = True
+            # `self` handed to somebody else: we do not know what they do with it
+            for a in list(n.args) + [k.value for k in n.keywords]:
+                if isinstance(a, ast.Name) and a.id == "self":
+                    return "R"
+        return "G" if guard else None
+
+    def _scan(self, stmts, stack, owner) -> Optional[str]:
+        """GUARD / UNGUARDED / 'END' (path ends without reaching) / None (falls through)"""
+        for st in stmts:
+            if isinstance(st, (ast.FunctionDef, ast.AsyncFunctionDef, ast.ClassDef)):
+                continue
+            if isinstance(st, ast.If):
+                c = self._classify_simple(st.test, stack, owner)
+                if c == "R":
+                    return "UNGUARDED"
+                if c == "G":
+                    return "GUARD"
+                rb, ro = self._scan(st.body, stack, owner), self._scan(st.orelse, stack, owner)
+                if "UNGUARDED" in (rb, ro):
+                    return "UNGUARDED"
+                if rb in ("GUARD", "END") and ro in ("GUARD", "END"):
+                    return "GUARD" if "GUARD" in (rb, ro) else "END"
+                continue
+            if isinstance(st, (ast.For, ast.AsyncFor, ast.While)):
+                head = st.iter if not isinstance(st, ast.While) else st.test
+                c = self._classify_simple(head, stack, owner)
+                if c == "R":
+                    return "UNGUARDED"
+                if c == "G":
+                    return "GUARD"
+                if self._scan(st.body, stack, owner) == "UNGUARDED" or self._scan(st.orelse, stack, owner) == "UNGUARDED":
+                    return "UNGUARDED"
+                continue
+            if isinstance(st, (ast.With, ast.AsyncWith)):
+                for it in st.items:
+                    c = self._classify_simple(it.context_expr, stack, owner)
+                    if c == "R":
+                        return "UNGUARDED"
+                    if c == "G":
+                        return "GUARD"
+                r = self._scan(st.body, stack, owner)
+                if r is not None:
+                    return r
+                continue
+            if isinstance(st, ast.Try):
+                r = self._scan(st.body, stack, owner)
+                if r == "UNGUARDED":
+                    return r
+                for h in st.handlers:
+                    if self._scan(h.body, stack, owner) == "UNGUARDED":
+                        return "UNGUARDED"
+                if self._scan(st.orelse, stack, owner) == "UNGUARDED" or self._scan(st.finalbody, stack, owner) == "UNGUARDED":
+                    return "UNGUARDED"
+                if r == "GUARD" and not st.handlers:
+                    return "GUARD"
+                continue
+            c = self._classify_simple(st, stack, owner)
+            if c == "R":
+                return "UNGUARDED"
+            if c == "G":
+                return "GUARD"
+            if isinstance(st, (ast.Return, ast.Raise)):
+                return "END"
+        return None
+
+    def summary(self, name: str, stack: tuple = (), after=None) -> str:
+        fn, owner = self._resolve(name, after)
+        key = (owner, name)
+        if key in self.memo:
+            return self.memo[key]
+        if key in stack or len(stack) > 12:
+            return "NOIO"
+        if fn is None:
+            return "NOIO"
+        try:
+            import textwrap
+            fdef = ast.parse(textwrap.dedent(inspect.getsource(fn))).body[0]
+        except (OSError, TypeError, SyntaxError):
+            return "UNGUARDED"
+        r = self._scan(D.body_without_docstring(fdef), stack + (key,), owner)
+        out = {"GUARD": "GUARD", "UNGUARDED": "UNGUARDED"}.get(r, "NOIO")
+        if not stack:
+            self.memo[key] = out
+        return out
+
+    def table(self) -> dict:
+        return {m: self.summary(m) for m in D.rpc_methods(self.cls)}
